@@ -1,15 +1,24 @@
 """C03 - Delta xDS leaves a client in the same state as state-of-the-world xDS.
 
-Proof: lean/IstioModel/C03/Theorems.lean (bookkeeping of pushDeltaXds: removed = watched - generated,
-record update, never-remove; one-push synchronisation for wildcard / named / delta-aware generator
-classes; delta = SotW after every prefix of every history for wildcard types, from any retained state).
-Tie: T-diff on the real processDeltaRequest / pushConnectionDelta / processRequest / pushConnection
-(verif hooks, bare DiscoveryServer with harness generators):
+Proof (lean/IstioModel/C03):
+  Theorems.lean     bookkeeping of pushDeltaXds (removed = watched - generated, record update, never-remove), one-push
+                    synchronisation per generator class; delta_aware_sync DISCHARGED for the model's delta-aware CDS generator
+                    (delta_cds_gen_sync) + witness that a keyed delta is wrong when the keys are behind the state
+  History.lean      delta_eq_sotw_history: the closed system of ONE wildcard type whose server decisions are taken by the tied
+                    handlers processDelta / pushDeltaOne / processSotw / pushSotwOne (ACK round trips, arbitrary subscription
+                    changes, lost pushes, reconnects presenting retained state): after every prefix of every history delta = SotW = world
+  WdsTheorems.lean  the real WorkloadGenerator model: requests and pushes, wildcard and on-demand, version skip, alias rule,
+                    Workload type; WorkloadRBACGenerator: forced resync, keyed push; witnesses of the known on-demand class
+  WdsHistory.lean   wds_wildcard_history: the wildcard ztunnel client over wdsProcessT / wdsPushOneT holds exactly the index
+Tie: T-diff on the real processDeltaRequest / pushConnectionDelta / pushDeltaXds / processRequest / pushConnection
+(verif hooks, bare DiscoveryServer):
   book   - scripted generator outputs; responses and watch table vs lean/IstioModel/C03/Server.lean
   equiv  - world-based plain generators, SotW client and delta client on the same history
   equivd - same with a delta-aware CDS generator (BuildDeltaClusters-like)
-  wds    - the real WorkloadGenerator (GenerateDeltas / generateDeltasOndemand / appendAddress) over a stub ambient index
-On break: harness `oracle` compares what the two real clients hold (the property itself).
+  wds    - the REAL WorkloadGenerator (Address and Workload types) and the REAL WorkloadRBACGenerator (Authorization type)
+           over a stub ambient index (workloads whose address is not indexed, shared addresses, Service addresses, policies)
+  e2e/c03 - the statement itself on a real DiscoveryServer with the real generators (no model): sidecar, router and ztunnel clients
+On break: harness `oracle` evaluates the property on the real code (what the clients hold; nothing still needed is removed).
 """
 import json
 import os
@@ -75,13 +84,21 @@ def run(ctx):
     ctx.rule = ("book: random scripts of generator outputs (plain / delta-aware, nil / empty / resources, deleted, usedDelta, incremental), "
                 "delta and SotW requests (subscribe/unsubscribe/initial versions, nonce current/stale/empty, NACK), pushes and send failures over 10 xDS types; "
                 "equiv/equivd: random histories of world changes, client (re)subscriptions and pushes for 7 types with world-based generators; "
+                "wds: one ztunnel-like client per case on the Address / Workload / Authorization type: index and policy changes with the pushes that name them, "
+                "forced pushes, subscription changes by name and by address, reconnects presenting retained versions, failed sends; "
+                "e2e/c03: corpus + generated histories of mesh changes (ServiceEntry, DestinationRule, VirtualService, Sidecar, PeerAuthentication, EnvoyFilter, Gateway, "
+                "memory-registry services, kube pods/services) played to a SotW and a delta client of one proxy (sidecar / router) or to ztunnel clients; "
                 "distinct = hash of (ops, implementation outputs); non-trivial = at least one op")
     ctx.assumptions = [
-        "generators are abstract: theorems hold for any generator in the stated class (full-set / always-answer / correct-delta); that the real CDS/EDS/LDS/RDS generators are in those classes is observed end-to-end, not proved",
+        "history theorems: the generator is full and not delta-aware (CDS on forced pushes, LDS, NDS) or the exact model of the real WorkloadGenerator; that the real "
+        "CDS/EDS/LDS/RDS/ECDS generators keep the two clients equal is observed end-to-end (e2e/c03), not proved; delta-aware CDS is proved correct only for the model's "
+        "generator and only when the keys of a push name every differing resource (the known class events-behind-state is exactly the failure of that condition)",
         "xDS for a request is generated from proxy.LastPushContext (the snapshot of the last push to the connection); endpoints are live - modelled as the visibility rule of the equiv streams",
-        "the delta client applies resources then removed_resources; the SotW client replaces wildcard types and upserts named types (xDS protocol document)",
+        "the delta client applies resources then removed_resources; the SotW client replaces wildcard types and upserts named types (xDS protocol document); snapshots contain no resource named '*'",
+        "wds stream: the ambient index behind the real generators is a stub with the contract of ambientindex.go AddressInformation / AdditionalPodSubscriptions (node-local part) / "
+        "authorization.go Policies; the real index runs in the ztunnel cases of e2e/c03",
     ]
-    ctx.trusted.append("pilot/pkg/xds/zz_verif_c03.go, zz_verif_c04.go (verif-tagged accessors: bare server, processDeltaRequest, processRequest, pushConnection[Delta])")
+    ctx.trusted.append("pilot/pkg/xds/zz_verif_c03.go, zz_verif_c04.go (verif-tagged accessors: bare server, processDeltaRequest, processRequest, pushConnection[Delta], pushDeltaXds)")
     ctx.lean_prove(THEOREMS)
     if not ctx.build_drv():
         return
@@ -90,7 +107,7 @@ def run(ctx):
     ctx.diff_stream("book", ctx.n(1200, 30000), oracle=oracle)
     ctx.diff_stream("equiv", ctx.n(1200, 30000), oracle=oracle)
     ctx.diff_stream("equivd", ctx.n(800, 20000), oracle=oracle)
-    # the REAL workload generator (wildcard + on-demand, version skip) over a stub ambient index
+    # the REAL WorkloadGenerator (Address / Workload types; wildcard + on-demand, version skip) and the REAL WorkloadRBACGenerator over a stub ambient index
     ctx.diff_stream("wds", ctx.n(1500, 40000), oracle=oracle)
     # second line: the property oracle on every generated case, independent of the model
     for stream in STREAMS:
@@ -138,15 +155,24 @@ def replay(ctx, path):
 
 
 MANIFEST = {
-    "level_text": ("Lean 4 proof: the server-side delta bookkeeping (pushDeltaXds narrowing, removed = watched - generated, record update, "
-                   "never-remove, sendDelta, processDeltaRequest with forceEDSPush) and both client kinds are modelled exactly; theorems: removed_exact, "
-                   "ceased_resources_removed, needed_not_removed, ecds_never_removed, one-push synchronisation for wildcard / named / delta-aware generator "
-                   "classes, and delta_eq_sotw_wild - delta client = SotW client after every prefix of every history from any retained state. "
-                   "The model is tied to /repo on every run by three differential streams through the real request/push handlers."),
-    "level_note": ("Trusted: Lean kernel + {propext, Classical.choice, Quot.sound}; hand-written model tied by differential testing (book/equiv/equivd streams on the real "
-                   "processDeltaRequest/pushConnectionDelta/processRequest/pushConnection with harness generators); generators are abstract in the theorems "
-                   "(real BuildDeltaClusters etc. observed only); visibility rule 'requests are served from proxy.LastPushContext' is an assumption of the equiv model; "
-                   "hooks pilot/pkg/xds/zz_verif_c03.go, zz_verif_c04.go."),
-    "technique": "Lean 4 theorems over an exact model of delta-xDS bookkeeping and both client kinds + differential correspondence with the real Go handlers",
+    "level_text": ("Lean 4 proof over an exact model of the server-side delta bookkeeping (pushDeltaXds narrowing, removed = watched - generated, record update, "
+                   "never-remove, sendDelta, processDeltaRequest with forceEDSPush), of both client kinds, of the real WorkloadGenerator (Address / Workload types) and "
+                   "of WorkloadRBACGenerator. History theorems: delta_eq_sotw_history - for a wildcard, not generator-managed type with a full generator, in the closed "
+                   "system whose every server decision is taken by the tied handlers (processDelta, pushDeltaOne, processSotw, pushSotwOne; every response ACKed through "
+                   "them; arbitrary subscription changes, lost pushes, reconnects presenting retained state and nonce) the delta client holds exactly what the SotW client "
+                   "holds after every prefix of every history, from any retained state; wds_wildcard_history - the same for the wildcard ztunnel client against the index "
+                   "over the real generator's model. One-step theorems: removed_exact, ceased_resources_removed, needed_not_removed, ecds_never_removed, named types, "
+                   "delta-aware generators (hypotheses discharged for the model's delta CDS generator when the keys cover the change; witness when they do not), on-demand "
+                   "WDS requests and pushes, the alias rule, the Authorization type (a reconnect removes retained policies deleted while away). The abstract per-type run "
+                   "`wstep` (delta_eq_sotw_wild) is kept; the handler-level theorem supersedes the two one-step refinement lemmas. The models are tied to /repo on every run "
+                   "by four differential streams (book, equiv, equivd, wds) through the real request / push handlers and generators, and the statement itself is evaluated "
+                   "on a real DiscoveryServer with the real CDS/EDS/LDS/RDS/ECDS/WDS generators by the e2e stream (sidecar, router and ztunnel clients)."),
+    "level_note": ("Trusted: Lean kernel + {propext, Classical.choice, Quot.sound}; hand-written models tied by differential testing (book/equiv/equivd/wds streams on the real "
+                   "processDeltaRequest/pushConnectionDelta/pushDeltaXds/processRequest/pushConnection, wds with the real WorkloadGenerator and WorkloadRBACGenerator over a "
+                   "stub index); the real BuildDeltaClusters / EDS / LDS / RDS / ECDS generators are not modelled: their contribution to the property is observed by e2e/c03 "
+                   "only (3 known classes, see known-findings); no history theorem for named types (one-step named_push_sync) nor for the on-demand ztunnel client (one-step "
+                   "request / push theorems; its known classes are stated as false FullStatements with witnesses); visibility rule 'requests are served from "
+                   "proxy.LastPushContext' is an assumption of the equiv model; hooks pilot/pkg/xds/zz_verif_c03.go, zz_verif_c04.go, zz_verif_e2e.go."),
+    "technique": "Lean 4 theorems over an exact model of delta-xDS bookkeeping, both client kinds and the ztunnel generators + differential correspondence with the real Go handlers + end-to-end evaluation of the statement on a real DiscoveryServer",
     "design_ref": "DESIGN.md section 5 C03",
 }
